@@ -1951,6 +1951,51 @@ pub fn run(ctx: &Ctx) -> i32 {
         rep.absorb("builder_call_orders", r);
     }
 
+    // array members whose extents come from typedefs, with and without a qualifier on the typedef name: the member
+    // `T m1[d1]` / `T m1[d1][d2]` between a float and a float2, spelled directly and through every typedef path
+    {
+        let leaves = ["float", "float2", "float3", "half", "uint"];
+        let dims: Vec<Vec<u32>> = vec![vec![1], vec![2], vec![3], vec![2, 2], vec![3, 2], vec![2, 3], vec![1, 3], vec![2, 1]];
+        // {E} element type, {D} all extents, {O} outer extent, {I} inner extents
+        let paths: [(&str, &str, bool); 8] = [
+            ("direct", "struct S0 { float m0; {E} m1{D}; float2 m2; };", false),
+            ("typedef-of-array", "typedef {E} G{D};\nstruct S0 { float m0; G m1; float2 m2; };", false),
+            ("const-typedef-of-array", "typedef {E} G{D};\ntypedef const G RG;\nstruct S0 { float m0; RG m1; float2 m2; };", false),
+            ("typedef-of-const-array", "typedef const {E} G{D};\nstruct S0 { float m0; G m1; float2 m2; };", false),
+            ("typedef-of-element", "typedef {E} T;\nstruct S0 { float m0; T m1{D}; float2 m2; };", false),
+            ("typedef-row-then-declarator", "typedef {E} R{I};\nstruct S0 { float m0; R m1{O}; float2 m2; };", true),
+            ("typedef-row-then-typedef", "typedef {E} R{I};\ntypedef R G{O};\nstruct S0 { float m0; G m1; float2 m2; };", true),
+            ("const-typedef-row-then-typedef", "typedef {E} R{I};\ntypedef const R CR;\ntypedef CR G{O};\nstruct S0 { float m0; G m1; float2 m2; };", true),
+        ];
+        let forms: Vec<Form> = env.forms.iter().copied().filter(|f| f.site == Site::Plain && !env.is_not_validated(*f)).collect();
+        let (nl, nd, np, nf) = (leaves.len() as u64, dims.len() as u64, paths.len() as u64, forms.len() as u64);
+        let envr = &env;
+        let r = run_par(ctx, nl * nd * np, 8, |idx, acc| {
+            let mut d = Vec::new();
+            crate::util::decode(idx, &[np, nd, nl], &mut d);
+            let (pname, tpl, needs_two) = paths[d[0] as usize];
+            let dm = &dims[d[1] as usize];
+            if needs_two && dm.len() < 2 {
+                return;
+            }
+            let leaf = leaves[d[2] as usize];
+            let Some(elem) = parse_ty(leaf) else { return };
+            // `T a[3][2]` is an array of 3 arrays of 2
+            let mut member = elem;
+            for n in dm.iter().rev() {
+                member = Ty::Array(Box::new(member), *n);
+            }
+            let ty = Ty::Struct(vec![parse_ty("float").unwrap(), member, parse_ty("float2").unwrap()]);
+            let ext = |v: &[u32]| v.iter().map(|n| format!("[{}]", n)).collect::<String>();
+            let decls = tpl.replace("{E}", leaf).replace("{D}", &ext(dm)).replace("{O}", &ext(&dm[..1])).replace("{I}", &ext(&dm[1.min(dm.len())..]));
+            let form = forms[(idx % nf) as usize];
+            let src = format!("{}\n{}", decls, form.tail("S0", ""));
+            let sp = Spelling { src: Some(src), class: Some(format!("typedef-array|{}", pname)), note: format!(" declared as `{}`", decls.replace('\n', " ")), replay: None, rank: d[0] * 100 + d[1] };
+            check_spelled(&ty, form, Inh::FLAT, &[], envr, acc, &sp);
+        });
+        rep.absorb("array_members_through_typedefs", r);
+    }
+
     // informational only: uses of a structured buffer that are outside the enumerated space (the property text
     // covers them, the task restricted the space to the forms the checker looks at). No verdict depends on this.
     let canary = "struct S { float3 a; float b; };\n";
